@@ -14,7 +14,9 @@ deep-copied between the quotes (the relations always refer to the paths the unde
 against a column of histories, one spot against a vector of histories; functional, positional and module form), evaluated
 element-wise on the pairs with running maximum >= spot, and (e) contracts that are user-defined SUBCLASSES of the library
 derivatives with their own Black-Scholes module registered under their own name: BlackScholes(derivative) resolves to the
-module registered for the most derived class and the relations hold for what it quotes.
+module registered for the most derived class and the relations hold for what it quotes; WHICH module class is handed out is
+also decided by the model (Model/Factory.lean, op factory: the registry as an insertion-ordered dict, lookup by the own class
+name only) from the history of register_module calls of this process, and compared exactly (class name or error kind).
 """
 import math
 from common import *  # noqa
@@ -299,14 +301,47 @@ def user_classes():
              ("ab", VerifOneTouchOption, pnn.BSAmericanBinaryOption), ("lb", VerifMaxCall, pnn.BSLookbackOption),
              ("ab", VerifTouch, VerifBSAmericanBinary), ("lb", VerifLookback, pnn.BSLookbackOption),
              ("ab", VerifOneTouch2, VerifBSAmericanBinary), ("lb", VerifMaxCall2, pnn.BSLookbackOption)]
+    class VerifUnregisteredCall(pin.EuropeanOption):
+        """a subclass of a registered library contract that is NOT registered itself"""
+
+    class VerifUnregisteredTouch(VerifOneTouchOption):
+        """a subclass of a registered user contract that is NOT registered itself"""
+
     slots = {"c": [], "p": [], "bc": [], "bp": [], "ab": [], "lb": []}
     factory = BlackScholesModuleFactory()
+
+    def module_kind(mcls):
+        for base, kind in ((pnn.BSEuropeanOption, "european"), (pnn.BSEuropeanBinaryOption, "european_binary"),
+                           (pnn.BSAmericanBinaryOption, "american_binary"), (pnn.BSLookbackOption, "lookback")):
+            if isinstance(mcls, type) and issubclass(mcls, base):
+                return kind
+        return "unknown:" + repr(mcls)[:80]       # not one of the four library formulas: the driver refuses the history (a broken tie)
+    # the register_module calls of this process, oldest first, for the model of the registry (op factory): what the library
+    # registered at import (every name once, so the registry in its own order IS that history), then the calls made here
+    history = [[name, mcls.__name__, module_kind(mcls)] for name, mcls in factory.named_modules()]
+
+    def register(name, mcls):
+        factory.register_module(name, mcls)
+        history.append([name, mcls.__name__, module_kind(mcls)])
+    # two names registered twice: the first registration is replaced by the one of the loop below, the name keeps its place
+    # (VerifMaxCall stays the first user entry of named_modules() although it is registered again after three others)
+    register("VerifMaxCall", pnn.BSEuropeanOption)
+    register("VerifCall", pnn.BSEuropeanOption)
     for slot, dcls, mcls in pairs:
-        factory.register_module(dcls.__name__, mcls)
+        register(dcls.__name__, mcls)
         slots[slot].append((dcls, mcls))
     slots["p"], slots["bp"] = list(slots["c"]), list(slots["bc"])
-    _USER.update(slots=slots, names=[dcls.__name__ for _s, dcls, _m in pairs])
+    _USER.update(slots=slots, names=[dcls.__name__ for _s, dcls, _m in pairs], history=history,
+                 unregistered=[VerifUnregisteredCall, VerifUnregisteredTouch])
     return slots, _USER["names"]
+
+
+def factory_query(torch, BlackScholes, der):
+    """one question to the model of the registry: the class of the derivative (own name, names of the rest of its MRO), its call
+    flag, and what BlackScholes(derivative) of the real code does: [module class name, call flag of the instance] or the error kind"""
+    st, mod, _ = call_impl(BlackScholes, der)
+    impl = {"ok": [type(mod).__name__, bool(getattr(mod, "call", True))]} if st == "ok" else {"err": mod}
+    return ({"name": type(der).__name__, "mro": [c.__name__ for c in type(der).__mro__[1:]], "call": bool(getattr(der, "call", True))}, impl), (st, mod)
 
 
 def derivative_block(ctx, torch, g, n_scen, items, metas, family="library"):
@@ -341,6 +376,7 @@ def derivative_block(ctx, torch, g, n_scen, items, metas, family="library"):
     MOD_KIND = {"c": ("european", True), "p": ("european", False), "bc": ("european_binary", True), "bp": ("european_binary", False),
                 "ab": ("american_binary", True), "lb": ("lookback", True)}
     mod_reqs, mod_metas = [], []      # the module layer itself: Lean Model/Acquire.lean through the driver op bs_module
+    fac_qs, fac_metas = [], []        # which module class BlackScholes(derivative) hands out: Lean Model/Factory.lean through the driver op factory
     STARTS = [("at-strike", 6), ("below", 2), ("above", 1), ("one-ulp-above", 1)]
 
     def gen_start(K, dtype):
@@ -433,8 +469,14 @@ def derivative_block(ctx, torch, g, n_scen, items, metas, family="library"):
                 # the pricing module of a derivative is kept and asked again after the events (half of the scenarios)
                 mod = bsm.get((who, nm)) if keep_modules else None
                 if mod is None:
+                    if family == "subclass":
+                        (q, impl), (st, mod) = factory_query(torch, BlackScholes, ders[nm])
+                        fac_qs.append(q)
+                        fac_metas.append((scase | {"derivative": nm}, impl))
+                        if st != "ok" and nm not in registered:
+                            ctx.fail("BlackScholes(derivative) raised for a library derivative", scase | {"derivative": nm}, key=fam + pre + "construct-library", detail=mod)
+                            return False
                     if nm in registered:
-                        st, mod, _ = call_impl(BlackScholes, ders[nm])
                         if st != "ok":
                             ctx.fail("BlackScholes(derivative) raised for a user-defined subclass of a library derivative that has its own module registered under its own name",
                                      scase | {"derivative": nm}, key="subclass-" + pre + "construct", detail=mod)
@@ -444,6 +486,8 @@ def derivative_block(ctx, torch, g, n_scen, items, metas, family="library"):
                                      "derivative, registered under its own name through BlackScholesModuleFactory().register_module), bound to that derivative",
                                      scase | {"derivative": nm}, key="subclass-" + pre + "resolution",
                                      detail={"got": type(mod).__name__, "registered": registered[nm].__name__, "mro": [c_.__name__ for c_ in type(ders[nm]).__mro__[:4]]})
+                        bsm[(who, nm)] = mod
+                    elif family == "subclass":
                         bsm[(who, nm)] = mod
                     else:
                         mod = bsm[(who, nm)] = BlackScholes(ders[nm])
@@ -515,6 +559,41 @@ def derivative_block(ctx, torch, g, n_scen, items, metas, family="library"):
                        float(torch.tensor(K, dtype=cur)) if ev["start"] == "at-strike" else None)
             if ok and twin is not None:
                 ok = quote(twin, "copied:", stage + ": deep copy taken before the originals were simulated again", cur, who=f"copy {n_ev}")
+    if family == "subclass":
+        from pfhedge.nn.modules.bs.black_scholes import BlackScholesModuleFactory
+        slots, _names = user_classes()
+        stock = BrownianStock()
+        # error paths: unregistered subclasses of registered contracts (library / user parent), puts of contracts registered with a
+        # path-dependent module, and every registered user contract once as a call and once as a put
+        probes = [cls_(stock, call=c_) for cls_ in _USER["unregistered"] for c_ in (True, False)]
+        probes += [dcls(stock, call=c_) for nm in ("c", "bc") for dcls, _m in slots[nm] for c_ in (True, False)]
+        for nm in ("ab", "lb"):
+            for dcls, _m in slots[nm]:
+                st, der, _ = call_impl(dcls, stock, call=False)      # the library path-dependent contracts take `call`
+                probes += [dcls(stock)] + ([der] if st == "ok" else [])
+        probes += [EuropeanOption(stock, call=False), EuropeanBinaryOption(stock, call=False), AmericanBinaryOption(stock), LookbackOption(stock)]
+        for der in probes:
+            (q, impl), _r = factory_query(torch, BlackScholes, der)
+            fac_qs.append(q)
+            fac_metas.append(({"kind": "factory-probe", "class": q["name"], "mro": q["mro"][:3], "call": q["call"]}, impl))
+        hist = _USER["history"]
+        try:
+            fout = ctx.driver([{"op": "factory", "history": hist, "queries": fac_qs}])[0]
+        except DriverBroken as e:
+            ctx.ties_broken.append({"kind": "driver", "detail": str(e)[:1500]})
+            fout = None
+        if fout is not None:
+            now = [[name, mcls.__name__] for name, mcls in BlackScholesModuleFactory().named_modules()]
+            if fout.get("named_modules") != now:
+                ctx.disagree("factory:named_modules", {"kind": "factory", "history": hist}, now, fout.get("named_modules", fout))
+            for (fcase, impl), r in zip(fac_metas, fout.get("resolved", [])):
+                ctx.evaluations += 1
+                if r.get("construct") != impl:
+                    ctx.disagree("factory", fcase | {"history": [h_[:2] for h_ in hist]}, impl, r)
+                else:
+                    ctx.stats["factory:agreed:" + ("ok" if "ok" in impl else impl["err"])] += 1
+            if len(fout.get("resolved", [])) != len(fac_metas):
+                ctx.disagree("factory", {"kind": "factory", "queries": len(fac_metas)}, len(fac_metas), fout)
     try:
         outs = ctx.driver(mod_reqs) if mod_reqs else []
     except DriverBroken as e:
@@ -640,4 +719,7 @@ def check(ctx):
              "just below it, above; functional / positional / module; in-domain pairs only; bit for bit against one-element calls, point relations, two elements per grid to the model); "
              "the derivative scenarios repeated with user-defined subclasses of the library derivatives (one-touch as a subclass of EuropeanBinaryOption, call on the maximum as a subclass of "
              "EuropeanOption, renamed contracts, subclasses of subclasses; own module — library class or user subclass of it — registered under the own class name): class and binding of "
-             "BlackScholes(derivative) + all relations + model of the module layer; distinct = sha1 of canonical case")
+             "BlackScholes(derivative) + all relations + model of the module layer; every BlackScholes(derivative) of these scenarios, plus probes (unregistered subclasses of registered "
+             "contracts, puts of contracts registered with a path-dependent module, every registered contract as call and put), also resolved by the model of the registry (op factory: history of "
+             "register_module calls read off named_modules() + the calls made here, two names registered twice; class name + MRO + call flag -> module class name / call flag of the instance or error kind, "
+             "and the named_modules() order), compared exactly; distinct = sha1 of canonical case")
